@@ -113,4 +113,18 @@ Section ChildIter.
   Proof.
     unfold gi_nth. revert n; induction l as [|x r IH]; intros [|n]; cbn; auto. apply IH.
   Qed.
+  (* nth_back(n): the n-th item from the back; what remains is everything in front of it; past the front the
+     iterator is exhausted *)
+  Theorem gi_nth_back_spec l n :
+    fst (gi_nth_back l n) = nth_error (rev l) n /\ snd (gi_nth_back l n) = firstn (length l - S n) l.
+  Proof.
+    unfold gi_nth_back, gi_next_back. rewrite <- skipn_rev.
+    assert (H : forall (m : list A) k, fst (match skipn k m with [] => (None, []) | x :: r => (Some x, rev r) end) = nth_error m k /\
+                                       snd (match skipn k m with [] => (None, @nil A) | x :: r => (Some x, rev r) end) = rev (skipn (S k) m)).
+    { induction m as [|y m IH]; intros [|k]; cbn [skipn nth_error fst snd rev]; auto. apply IH. }
+    destruct (H (rev l) n) as [H1 H2]. split; [exact H1|]. rewrite H2, skipn_rev, rev_involutive. reflexivity.
+  Qed.
+
+  Theorem gi_next_back_nil : gi_next_back (@nil A) = (None, []).
+  Proof. reflexivity. Qed.
 End ChildIter.
